@@ -12,6 +12,8 @@ const ZOO = [
   ['nonascii-with-escapes-string', "return ['[\\\\uD800-\\\\uDBFF][\\\\uDC00-\\\\uDFFF]|[·•]', 'é\\n\\x41\\u0041\\u{1F600}\\\\u0041 \\\\uD800 € \\\\x5c', \"ñ\\'\\\"\\\\\"].map(x => x.length + ':' + [...x].map(c => c.codePointAt(0).toString(16)).join('.')).join('|') + w.s1"],
   ['nonascii-with-escapes-template', 'return [`C:\\x5cnotes\\x5crésumé`, `é\\x60\\x24{x}\\u0041€`, `ü${w.i1}\\x5c${w.i2}😀\\u{5c}`].map(x => x.length + \':\' + [...x].map(c => c.codePointAt(0).toString(16)).join(\'.\')).join(\'|\') + w.s1'],
   ['nonascii-regex-and-keys', "const o = { 'clé': 1, 'ключ\\n': 2, [`ky\\x5cé`]: 3 }; return Object.keys(o).map(k => [...k].map(c => c.codePointAt(0)).join('.')).join('|') + /[é€]\\u0041\\x5c\\//u.source + /😀{2}/u.test('😀😀') + w.s1"],
+  ['line-continuations-and-raw-breaks', "const a = 'one\\\ntwo\\\n  three', b = \"x\\\ny\"; const t = `l1\nl2\\\nl3`; /* block\n comment */ const r = String.raw`r1\nr2\\\nr3`; // line comment\nreturn [a, b, t, r].map(x => x.length + ':' + [...x].map(c => c.codePointAt(0)).join('.')).join('|') + w.s1 + 'k\\\nz'"],
+  ['raw-ls-ps-in-strings', "return ['a\u2028b', \"c\u2029d\", `e\u2028f`].map(x => x.length + ':' + x.charCodeAt(1)).join('|') + w.s1 /* \u2028 in comment */"],
   ['lone-surrogate-escape', "return ['\\ud83d', '\\ud83d\\ude00', '\\udc00x'].map(x => x.length + ':' + x.charCodeAt(0)).join('|') + w.s1"],
   ['template-raw', 'return String.raw`a\\n${w.i1}\\u0041\\x41b` + `c\\n\\u0041`.length + w.s1'],
   ['tagged-invalid-escape', 'return ((s) => String(s[0]) + s.raw[0])`\\unicode and \\xerxes` + w.s1'],
